@@ -408,12 +408,12 @@ func (w *checker) run(c caseT) {
 			wit["capped_zstd_response"] = z
 			w.viol(sig(c.CapKind, "response-compression-changes-outcome"), fmt.Sprintf("identity: %s / zstd: %s", outcome(got), outcome(z)), wit)
 		}
-		// (the library builds a fresh zstd encoder per upload, ~10 ms each: only cases with few uploads)
+		// (the library builds a fresh zstd encoder per upload, ~100 ms each: only a few cases with few uploads)
 		nUp := 0
 		for _, u := range ref.Ups {
 			nUp += len(u)
 		}
-		if c.Ext == "plain" && nUp >= 1 && nUp <= 3 && (c.Index/len(kinds))%4 == 1 {
+		if c.Ext == "plain" && nUp >= 1 && nUp <= 2 && (c.Index/len(kinds))%12 == 1 {
 			z := w.exec(c, "zstd", c.Wire, c.ExtCap, nil)
 			nz := 0
 			same := len(z.Ups) == len(got.Ups)
